@@ -15,11 +15,13 @@ MUTANTS = [
     M("cbc-iv-guard-dropped", F, "def aes_cbc_decrypt(key: bytes, iv: bytes, data: bytes) -> bytes:\n    if len(iv) != 16:\n        raise ValueError(\"AES CBC requires 16-byte IV\")\n", "def aes_cbc_decrypt(key: bytes, iv: bytes, data: bytes) -> bytes:\n", "C20-LEN"),
     M("early-return-before-key", F, "        raise ValueError(\"AES ECB requires data length multiple of 16\")\n    round_keys = _get_round_keys(key)\n    data_view = memoryview(data)\n    out = bytearray(len(data_view))\n    offset = 0\n    for block in _chunks(data_view, 16):\n        out[offset : offset + 16] = _aes_encrypt_block", "        raise ValueError(\"AES ECB requires data length multiple of 16\")\n    if not data:\n        return b\"\"\n    round_keys = _get_round_keys(key)\n    data_view = memoryview(data)\n    out = bytearray(len(data_view))\n    offset = 0\n    for block in _chunks(data_view, 16):\n        out[offset : offset + 16] = _aes_encrypt_block", "C20-LEN"),
     M("iv-default-arg", F, "    def _cryptaes_encrypt(self: object, data: bytes) -> bytes:\n        iv = secrets.token_bytes(16)\n", "    def _cryptaes_encrypt(self: object, data: bytes, iv: bytes = secrets.token_bytes(16)) -> bytes:\n", "C20-WRAP"),
-    M("unpad-range", F, "if padding < 1 or padding > block_size:", "if padding < 0 or padding > block_size:", "C20-WRAP"),
+    M("unpad-full-block-rejected", F, "if padding < 1 or padding > block_size:", "if padding < 1 or padding >= block_size:", "C20-WRAP"),
+    M("unpad-strips-run", F, "    if data[-padding:] != bytes([padding]) * padding:\n        raise ValueError(\"Invalid PKCS#7 padding\")\n    return data[:-padding]", "    stripped = data.rstrip(data[-1:])\n    if len(data) - len(stripped) < padding:\n        raise ValueError(\"Invalid PKCS#7 padding\")\n    return stripped", "C20-WRAP"),
     M("patch-missing-binding", F, "    enc.aes_ecb_decrypt = aes_ecb_decrypt\n", "", "C20-PATCH"),
     M("patch-cross-binding", F, "    providers.aes_cbc_decrypt = aes_cbc_decrypt\n", "    providers.aes_cbc_decrypt = aes_ecb_decrypt\n", "C20-PATCH"),
 ]
 TWINS = [
+    T("unpad-lower-bound-zero-is-equivalent", F, "if padding < 1 or padding > block_size:", "if padding < 0 or padding > block_size:"),
     T("rename-local-in-xtime", F, "def _xtime(a: int) -> int:\n    a &= 0xFF\n    return ((a << 1) ^ 0x1B) & 0xFF if (a & 0x80) else (a << 1) & 0xFF", "def _xtime(value: int) -> int:\n    value &= 0xFF\n    return ((value << 1) ^ 0x1B) & 0xFF if (value & 0x80) else (value << 1) & 0xFF"),
     T("subbytes-shiftrows-swapped", F, "    for r in range(1, nr):\n        _sub_bytes(state)\n        _shift_rows(state)", "    for r in range(1, nr):\n        _shift_rows(state)\n        _sub_bytes(state)"),
     T("hex-vs-decimal-constant", F, "    rcon[1] = 0x01\n    for i in range(2, max_rounds + 1):", "    rcon[1] = 1\n    for i in range(2, max_rounds + 1):"),
